@@ -211,7 +211,7 @@ CHECKS["C15"] = dict(
     ignore_functional=True,
     rule=("every generated case of every monitor harness (all five libraries: build, use, edit, tear down) re-run in an AddressSanitizer + UndefinedBehaviourSanitizer build with a "
           "LeakSanitizer check after EVERY case, assertions delivered as exceptions, a watchdog per case; plus API-lifecycle histories aimed at ownership: shapes with pins in use "
-          "deleted, connectors and junctions deleted inside pending transactions, moves followed by deletes, routers destroyed with queued actions. "
+          "deleted, connectors and junctions deleted inside pending transactions, moves followed by deletes, routers destroyed with queued actions; and the repository's own test programs run in the same sanitizer build. "
           "non-trivial = as defined by the respective harness (lifecycle histories: an object was deleted while another still referred to it, or the router was destroyed with queued actions)"),
     workloads=[
         _san("c01_vpsc", "instances", 10000, 400000), _san("c01_vpsc", "histories", 4000, 100000), _san("c01_vpsc", "opt", 3000, 60000), _san("c01_vpsc", "resolve", 1500, 30000),
@@ -225,6 +225,8 @@ CHECKS["C15"] = dict(
         _san("c18_dialect", "subset", 3000, 100000), _san("c18_dialect", "roundtrip", 4000, 100000),
         _san("c19_decomp", "peel", 8000, 300000), _san("c19_decomp", "planarise", 5000, 200000),
         _san("c15_api", "avoid", 5000, 150000, watchdog=60), _san("c15_api", "vpsc", 8000, 300000, watchdog=30), _san("c15_api", "regress", 3, 3, fixed=True, watchdog=60),
+        # the repository's own 178 test programs compiled against the sanitizer build (quick: the first 24 of the sorted list)
+        _san("repo_tests.py", "repotests", 24, 178, fixed=True, watchdog=300),
     ],
     min_nontrivial=dict(quick=30000, thorough=500000),
     max_inconclusive=0.08,
